@@ -112,7 +112,11 @@ PROPS.update({
     ),
     "C05": _bounded("C05", "c05", "documents (incl. explicit None / structured attribute values), fragments, slices, marks and all eight step kinds through json.dumps/loads: equality, identical re-serialisation, same effect and map, no aliasing; registry names."),
     "C06": _bounded("C06", "c06", "per content expression (all syntax trees to a size bound, random larger, malformed token strings) the compiled matcher is compared with an independent derivative automaton by a product construction: acceptance and liveness for ALL child sequences of that expression. No contract within reach expresses this for all expressions (nfa/dfa are closures over shared mutable lists)."),
-    "C07": _bounded("C07", "c07", "check / valid_content / create_checked / can_replace (all index ranges and replacement sub-ranges) / can_replace_with / can_append against validity computed from the schema spec strings."),
+    "C07": _hybrid("C07", "c07", ["contracts.model_content"],
+                   "ContentMatch.match_type / match_fragment (== the automaton run), compatible, edge; Node.content_match_at, can_replace (== run over children[:from] + replacement[start:end] + children[to:] to a valid end, inserted marks allowed; raises exactly when the prefix does not match), "
+                   "can_replace_with, can_append, NodeType.valid_content, compatible_content, allows_marks: every predicate is tied to the compiled automaton and the mark permission table for all nodes, ranges and fragments.",
+                   "agreement of the compiled automaton with the content expression (that is C06) and Node.check / create_checked against validity computed from the schema spec strings.",
+                   min_obligations=150, bounded_only=["Node.check (recursive closure)", "create_checked (polymorphic content argument)", "expression vs automaton (C06)"]),
     "C15": _bounded("C15", "c15", "fill_before / create_and_fill / find_wrapping on every reachable match state of 11 schemas against BFS oracles over independent automata (soundness, completeness, shortest chain, cache consistency). fill_before and compute_wrapping are a recursive closure with shared `seen` and a BFS over dict records: outside the verifiable subset."),
     "C19": _bounded("C19", "c19", "HTML fragments from a grammar + fixed edge cases: parse terminates and is oracle-valid; serialisation succeeds and escapes; whitespace-normal documents round-trip; context rules vs an oracle matcher. lxml, CSS selectors and regular expressions are outside any contract the verifier can discharge."),
     "C10": dict(
